@@ -195,8 +195,49 @@ func connValueReleased(c *Ctx, f *ssa.Function, conn ssa.Value, succ, dialBlock 
 						}
 					}
 					if guarded {
+						// a cached connection lives until somebody closes it: whoever overwrites the
+						// field (with nil, with another connection) has to close what it held
+						dropped := ""
+						for _, g := range c.ModFuncs {
+							eachInstr(g, func(_ *ssa.BasicBlock, _ int, ins ssa.Instruction) {
+								st, ok := ins.(*ssa.Store)
+								if !ok || st == x {
+									return
+								}
+								fa3, ok := st.Addr.(*ssa.FieldAddr)
+								if !ok || fa3.Field != fa.Field || namedOf(fa3.X.Type()) != namedOf(fa.X.Type()) {
+									return
+								}
+								closedBefore := false
+								// another dial stored into the field is judged where it is dialled
+								for d := range depSet(g, st.Val) {
+									if dc, ok := d.(*ssa.Call); ok {
+										if obj := calleeObj(&dc.Call); obj != nil && strings.HasPrefix(obj.Name(), "Dial") {
+											closedBefore = true
+										}
+									}
+								}
+								eachInstr(g, func(_ *ssa.BasicBlock, _ int, i2 ssa.Instruction) {
+									cl, ok := i2.(*ssa.Call)
+									if !ok || !cl.Call.IsInvoke() || cl.Call.Method.Name() != "Close" {
+										return
+									}
+									for d := range depSet(g, cl.Call.Value) {
+										if fa4, ok := d.(*ssa.FieldAddr); ok && fa4.Field == fa.Field && namedOf(fa4.X.Type()) == namedOf(fa.X.Type()) && instrDominates(cl, st) {
+											closedBefore = true
+										}
+									}
+								})
+								if !closedBefore && dropped == "" {
+									dropped = posOf(c, st)
+								}
+							})
+						}
+						if dropped != "" {
+							return false, "the connection is cached in field " + fieldName(fa) + ", and the field is overwritten at " + dropped + " without the connection it held being closed: every request that takes that path leaves an established connection and its reader goroutine behind"
+						}
 						handedOver = true
-						how = "the connection is cached in field " + fieldName(fa) + " behind a test of that field"
+						how = "the connection is cached in field " + fieldName(fa) + " behind a test of that field; every other assignment of the field closes the old connection first"
 					}
 				}
 			}
@@ -275,6 +316,8 @@ func checkC19(c *Ctx, r *Report) {
 	r.rule("C19.R7", "the exchange with a peer runs under the subscriber's lock: consistent lockset of the per-subscriber state, lock held to the end of the operation (shared with C09.R1/R2) - otherwise two operations of one subscriber take each other's answers from the shared channel", 10)
 	r.rule("C19.R8", "no goroutine is started on the request path (shared with C18.R2): an exchange that goes on in an abandoned goroutine keeps receiving from the subscriber's channel and takes the answer of the next request", 1)
 	r.rule("C19.R5", "each client waits on, and empties before it sends, the very channel its own answer handler delivers into", 6)
+	r.rule("C19.R9", "the answer channel, state machine and client of a subscriber are made once, by the constructor of the context: none is replaced later", 6)
+	r.rule("C19.R10", "every request-reachable call of a Diameter client function is made with the subscriber's lock held", 3)
 	r.rule("C19.R3", "the per-subscriber answer channel has one kind of receiver: the client function that sent the request", 2)
 
 	for _, a := range [][3]string{
@@ -346,6 +389,8 @@ func checkC19(c *Ctx, r *Report) {
 	}
 
 	c19SingleConsumer(c, r, "C19.R3")
+	c19ExchangeObjectsMadeOnce(c, r, "C19.R9")
+	c19ExchangeUnderLock(c, r, "C19.R10")
 	c19OwnChannel(c, r, "C19.R5")
 	c19BoundedWaits(c, r, "C19.R6")
 	r.shareFrom(c, checkC18, map[string]string{"C18.R2": "C19.R8"})
@@ -437,6 +482,11 @@ func c19GiveUpCloses(c *Ctx, f *ssa.Function) string {
 		}
 		if _, ok := callIs(ins, diamPath, "Message.WriteTo"); ok {
 			writes = append(writes, ins)
+		}
+		// once the answer is being decoded the exchange is over: an exit behind that point (a
+		// malformed answer) leaves nothing outstanding on the connection
+		if _, ok := callIs(ins, diamPath, "Message.Unmarshal"); ok {
+			closerBlocks[b] = true
 		}
 	})
 	if len(writes) == 0 {
